@@ -164,26 +164,61 @@ Proof.
 Qed.
 
 (* ================= the route table ================= *)
+Lemma skey_eqb_refl a : skey_eqb a a = true.
+Proof. induction a as [|x a IH]; [reflexivity|]. cbn [skey_eqb]. rewrite N.eqb_refl, IH. reflexivity. Qed.
+
+Lemma skey_eqb_eq : forall a b, skey_eqb a b = true <-> a = b.
+Proof.
+  induction a as [|x a IH]; intros [|y b]; cbn [skey_eqb]; split; intros H; try reflexivity; try discriminate.
+  - apply andb_true_iff in H as [H1 H2]. apply N.eqb_eq in H1. apply IH in H2. subst; reflexivity.
+  - inversion H; subst. rewrite N.eqb_refl. cbn [andb]. apply IH. reflexivity.
+Qed.
+
+Lemma rkey_eqb_eq a b : rkey_eqb a b = true <-> a = b.
+Proof.
+  destruct a, b; cbn [rkey_eqb]; split; intros H; try discriminate; try (inversion H; subst; rewrite ?N.eqb_refl; reflexivity).
+  - apply andb_true_iff in H as [H H3]. apply andb_true_iff in H as [H1 H2].
+    apply N.eqb_eq in H1, H2, H3. subst; reflexivity.
+  - apply N.eqb_eq in H. subst; reflexivity.
+  - apply N.eqb_eq in H. subst; reflexivity.
+Qed.
+
+(* the code's dataKey distinguishes exactly the notations *)
+Lemma data_key_eqb a b : skey_eqb (data_key a) (data_key b) = rkey_eqb a b.
+Proof.
+  destruct a as [c x y|x|n], b as [c' x' y'|x'|n']; cbn; try reflexivity.
+  - destruct (c =? c'), (x =? x'), (y =? y'); reflexivity.
+  - destruct (x =? x'); reflexivity.
+  - destruct (n =? n'); reflexivity.
+Qed.
+
+Lemma data_key_injective a b : data_key a = data_key b -> a = b.
+Proof. intros H. apply rkey_eqb_eq. rewrite <- data_key_eqb. apply skey_eqb_eq. exact H. Qed.
+
+Section Store.
+Variable dk : rkey -> list N.
+Hypothesis dk_distinguishes : forall a b, skey_eqb (dk a) (dk b) = rkey_eqb a b.
+
 Lemma apply_updates_get k client f : forall ups s i,
-  route_get (fst (apply_updates s client ups f i)) k = reg_updates (route_get s k) client ups f i k.
+  route_get (fst (apply_updates_g dk s client ups f i)) (dk k) = reg_updates (route_get s (dk k)) client ups f i k.
 Proof.
   induction ups as [|[a k'] ups IH]; intros s i; [reflexivity|].
-  destruct a; cbn [apply_updates reg_updates].
+  destruct a; cbn [apply_updates_g reg_updates].
   - destruct (fails_put f i).
-    + specialize (IH s (S i)). destruct (apply_updates s client ups f (S i)) as [s' es]. exact IH.
-    + specialize (IH ((k', client) :: s) (S i)). destruct (apply_updates ((k', client) :: s) client ups f (S i)) as [s' es].
-      cbn [fst] in *. rewrite IH. cbn [route_get]. reflexivity.
-  - specialize (IH s i). destruct (apply_updates s client ups f i) as [s' es]. exact IH.
+    + specialize (IH s (S i)). destruct (apply_updates_g dk s client ups f (S i)) as [s' es]. exact IH.
+    + specialize (IH ((dk k', client) :: s) (S i)). destruct (apply_updates_g dk ((dk k', client) :: s) client ups f (S i)) as [s' es].
+      cbn [fst] in *. rewrite IH. cbn [route_get]. rewrite dk_distinguishes. reflexivity.
+  - specialize (IH s i). destruct (apply_updates_g dk s client ups f i) as [s' es]. exact IH.
   - apply IH.
 Qed.
 
 Lemma rstep_get s o k :
-  route_get (fst (rstep s o)) k = registrant_from (route_get s k) [o] k.
+  route_get (fst (rstep_g dk s o)) (dk k) = registrant_from (route_get s (dk k)) [o] k.
 Proof.
-  destruct o as [client ups f ok|to m ok fget]; cbn [rstep registrant_from].
+  destruct o as [client ups f ok|to m ok fget]; cbn [rstep_g registrant_from].
   - pose proof (apply_updates_get k client f ups s 0%nat) as H.
-    destruct (apply_updates s client ups f 0) as [s' es]. exact H.
-  - destruct fget; [reflexivity|]. destruct (route_get s to); reflexivity.
+    destruct (apply_updates_g dk s client ups f 0) as [s' es]. exact H.
+  - destruct fget; [reflexivity|]. destruct (route_get s (dk to)); reflexivity.
 Qed.
 
 Lemma registrant_from_app k : forall h1 h2 cur,
@@ -194,38 +229,39 @@ Proof.
 Qed.
 
 Lemma rrun_get k : forall h s,
-  route_get (fst (rrun s h)) k = registrant_from (route_get s k) h k.
+  route_get (fst (rrun_g dk s h)) (dk k) = registrant_from (route_get s (dk k)) h k.
 Proof.
   induction h as [|o h IH]; intros s; [reflexivity|].
-  cbn [rrun]. pose proof (rstep_get s o k) as H1. destruct (rstep s o) as [s1 x]. cbn [fst] in H1.
-  specialize (IH s1). destruct (rrun s1 h) as [s2 xs]. cbn [fst] in *. rewrite IH, H1.
+  cbn [rrun_g]. pose proof (rstep_get s o k) as H1. destruct (rstep_g dk s o) as [s1 x]. cbn [fst] in H1.
+  specialize (IH s1). destruct (rrun_g dk s1 h) as [s2 xs]. cbn [fst] in *. rewrite IH, H1.
   change (o :: h) with ([o] ++ h). rewrite registrant_from_app. reflexivity.
 Qed.
 
 Lemma forward_step s hist to m ok :
-  (forall k, route_get s k = registrant hist k) ->
-  rstep s (RForward to m ok false) =
+  (forall k, route_get s (dk k) = registrant hist k) ->
+  rstep_g dk s (RForward to m ok false) =
     (s, match registrant hist to with Some d => if ok then ORelay d m else OHeld d m | None => ODrop end).
-Proof. intros Hs. cbn [rstep]. rewrite Hs. destruct (registrant hist to); reflexivity. Qed.
+Proof. intros Hs. cbn [rstep_g]. rewrite Hs. destruct (registrant hist to); reflexivity. Qed.
 
 Lemma route_exact_gen : forall ops hist s,
-  (forall k, route_get s k = registrant hist k) ->
-  route_exact_from hist ops (snd (rrun s ops)) = true.
+  (forall k, route_get s (dk k) = registrant hist k) ->
+  route_exact_from hist ops (snd (rrun_g dk s ops)) = true.
 Proof.
   induction ops as [|o ops IH]; intros hist s Hs; [reflexivity|].
-  cbn [rrun]. pose proof (fun k => rstep_get s o k) as Hg.
-  destruct (rstep s o) as [s1 x] eqn:Es.
-  assert (Hs1 : forall k, route_get s1 k = registrant (hist ++ [o]) k).
+  cbn [rrun_g]. pose proof (fun k => rstep_get s o k) as Hg.
+  destruct (rstep_g dk s o) as [s1 x] eqn:Es.
+  assert (Hs1 : forall k, route_get s1 (dk k) = registrant (hist ++ [o]) k).
   { intros k. specialize (Hg k). cbn [fst] in Hg. rewrite Hg. unfold registrant. rewrite registrant_from_app. rewrite <- Hs. reflexivity. }
-  specialize (IH (hist ++ [o]) s1 Hs1). destruct (rrun s1 ops) as [s2 xs]. cbn [snd route_exact_from] in *.
+  specialize (IH (hist ++ [o]) s1 Hs1). destruct (rrun_g dk s1 ops) as [s2 xs]. cbn [snd route_exact_from] in *.
   rewrite IH, andb_true_r.
   destruct o as [client ups f ok|to m ok fget].
-  - cbn [rstep] in Es. destruct (apply_updates s client ups f 0). inversion Es; subst. reflexivity.
-  - cbn [rstep] in Es. destruct fget.
+  - cbn [rstep_g] in Es. destruct (apply_updates_g dk s client ups f 0). inversion Es; subst. reflexivity.
+  - cbn [rstep_g] in Es. destruct fget.
     + inversion Es; subst. reflexivity.
-    + rewrite <- Hs. destruct (route_get s to) as [d|]; inversion Es; subst; [|reflexivity].
+    + rewrite <- Hs. destruct (route_get s (dk to)) as [d|]; inversion Es; subst; [|reflexivity].
       destruct ok; cbn [deliveries]; rewrite !N.eqb_refl; reflexivity.
 Qed.
+End Store.
 
 (* ================= media type selection ================= *)
 Lemma pick_top : forall accept mt,
